@@ -218,7 +218,7 @@ func (h *harness) checkOneKey(class, fixedKey string, c *niCase, comp compiler.N
 		h.prop(pkg+"-verify-panic", ct, "compiled verifier panicked ("+class+", "+decClass+")", "verifiers never accept or crash on malformed proofs")
 		return
 	}
-	propfail := got != expect
+	propfail := expect != "?" && got != expect
 	if c.light && !propfail && got == "0" && class != "same-context" {
 		// expensive verifier: a rejection the property demands is not re-derived by the model
 		// (that would run the sigma verifier a second time)
@@ -378,10 +378,7 @@ func (h *harness) niCase(c *niCase, comp compiler.Name, variant int, r *vh.Rng, 
 		p2 := append([]byte{}, proof...)
 		p2[pos] ^= m
 		d2 := c.decode(comp, p2)
-		want := "0"
-		if d2 != nil && d2.equal(orig) {
-			want = "1" // a re-encoding of the very same values is the same proof
-		}
+		want := d2.expectation(orig)
 		h.checkOne("byte-flip", c, comp, variant, cs, 0, p2, orig, want)
 	}
 	// structure: truncation, extension, emptiness
@@ -404,10 +401,7 @@ func (h *harness) niCase(c *niCase, comp compiler.Name, variant int, r *vh.Rng, 
 	for _, k := range sortedKeys(structural) {
 		p2 := structural[k]
 		d2 := c.decode(comp, p2)
-		want := "0"
-		if d2 != nil && d2.equal(orig) {
-			want = "1"
-		}
+		want := d2.expectation(orig)
 		h.checkOne("structure-"+k, c, comp, variant, cs, 0, p2, orig, want)
 	}
 	// every decoded component altered alone: the leaves of the proof's CBOR tree (every
@@ -432,11 +426,40 @@ func (h *harness) niCase(c *niCase, comp compiler.Name, variant int, r *vh.Rng, 
 				continue
 			}
 			d2 := c.decode(comp, p2)
-			want := "0"
-			if d2 != nil && d2.equal(orig) {
-				want = "1"
-			}
+			want := d2.expectation(orig)
 			h.checkOne("component-altered", c, comp, variant, cs, 0, p2, orig, want)
+		}
+		// length variation of every byte-string component: extended by 1/16/32 bytes (suffix,
+		// zero prefix), truncated by one — rejected unless the decoded value is the same proof
+		lb := 12
+		if comp != fiatshamir.Name {
+			lb = 6
+		}
+		if h.thorough || h.a.Search {
+			lb *= 3
+		} else if !(variant == 0 && strings.HasSuffix(c.id, "/k256")) {
+			lb = 3 // quick tier: the full set on k256 variant 0, a few components elsewhere
+		}
+		if c.light {
+			lb = 2
+		}
+		var strs []cborLeaf
+		for _, l := range leaves {
+			if l.kind == 'b' {
+				strs = append(strs, l)
+			}
+		}
+		for _, l := range selectLeaves(strs, lb) {
+			vs := l.lengthVariants(proof, func(n int) []byte { return r.Bytes(n) })
+			for _, name := range sortedKeys(vs) {
+				if c.light && name != "suffix32" && name != "zeroprefix1" && name != "truncate1" {
+					continue
+				}
+				p2 := vs[name]
+				d2 := c.decode(comp, p2)
+				want := d2.expectation(orig)
+				h.checkOne("length-"+name, c, comp, variant, cs, 0, p2, orig, want)
+			}
 		}
 	} else {
 		h.res.Note("proof of %s/%s is not walkable CBOR: %v", c.id, short(comp), err)
@@ -603,6 +626,7 @@ const (
 )
 
 func (h *harness) forgeries(c *niCase, variant int, cs ctxSpec, r *vh.Rng) {
+	stmtForDerive := c.stmt[0]
 	derive := func(withStmt bool, commitment []byte) []byte {
 		ctx, err := cs.build()
 		if err != nil {
@@ -611,7 +635,7 @@ func (h *harness) forgeries(c *niCase, variant int, cs ctxSpec, r *vh.Rng) {
 		t := ctx.Transcript()
 		t.AppendDomainSeparator(fmt.Sprintf("%x-%s-%s", cs.sid(), fsTranscriptLabel, c.pname))
 		if withStmt {
-			t.AppendBytes(zkStatementLabel, c.stmt[0])
+			t.AppendBytes(zkStatementLabel, stmtForDerive)
 		}
 		if commitment != nil {
 			t.AppendBytes(zkCommitmentLabel, commitment)
@@ -642,6 +666,26 @@ func (h *harness) forgeries(c *niCase, variant int, cs ctxSpec, r *vh.Rng) {
 		}
 		if got == "1" {
 			h.prop("forgery-"+name+"/fs/"+c.id, ct, "a simulated transcript (no witness) whose challenge was derived "+name+" is accepted", "fs_accept_iff: the challenge must be derived from (context, statement, commitment)")
+		}
+	}
+	if c.orForge != nil {
+		if f := c.orForge(r); f != nil {
+			report := func(kind, got, ct string) {
+				h.res.Count("forgery-or-overlong-share/"+kind, ct, true)
+				if got == "1" {
+					h.prop("sigor-forged-without-witness", ct, "an OR proof built without any witness (every branch simulated, branch 0 with an over-long challenge share) is accepted ("+kind+")", "or_overlong_share_rejected / or_sound_split")
+				} else if got == "P" {
+					h.prop("sigor-verify-panic", ct, "OR verifier panicked on the forged proof ("+kind+")", "verifiers never crash")
+				}
+			}
+			stmtForDerive = f.stmt
+			proof, verdict := f.fs(func(stmt, a []byte) []byte { return derive(true, a) })
+			stmtForDerive = c.stmt[0]
+			if verdict != nil {
+				report("fs", verdict(cs), fmt.Sprintf("orforge %s fs v%d stmt=%s %s proof=%s", c.id, variant, vh.Hex(f.stmt), cs.text(), vh.Hex(proof)))
+			}
+			report("interactive", f.interactive(cs, r), fmt.Sprintf("orforge %s interactive v%d stmt=%s %s", c.id, variant, vh.Hex(f.stmt), cs.text()))
+			report("sigma-verify", f.direct(r), fmt.Sprintf("orforge %s direct v%d stmt=%s", c.id, variant, vh.Hex(f.stmt)))
 		}
 	}
 	if c.adaptive != nil {
